@@ -300,6 +300,12 @@ pub fn cases(tier: Tier, seed: u64) -> Vec<Case> {
             }
         }
     }
+    // groups larger than the library's internal parallel chunk size (64) are still one group
+    let one = vec![L::Dense(1, Linear, false)];
+    let big: &[(usize, usize, usize)] = if full { &[(65, 65, 1), (70, 100, 1), (130, 65, 2), (129, 128, 1), (200, 100, 1)] } else { &[(65, 65, 1), (70, 100, 1), (130, 65, 1)] };
+    for (n, b, e) in big.iter() {
+        out.push(learn_case("dense1", Shape::Single(1), one.clone(), 1, Obj::MSE, *n, *b, *e));
+    }
     out.push(unstubbed_case());
     out.push(control_case());
     out
